@@ -19,6 +19,9 @@
 (*                 is not of that shape)                                   *)
 (*         ghk     1 iff get_hash() = KeyHasher over Hash::hash =          *)
 (*                 Hashable::hashable, on every path, twice                *)
+(*  race   i, j  : distinct answer tuples <<i==j, j==i, i.cmp(j),          *)
+(*                 j.cmp(i), hash bytes equal, count>> collected while     *)
+(*                 another thread hashed key i for the first time          *)
 (*                                                                         *)
 (* The order of strings is recomputed here from the code points (Rust      *)
 (* compares UTF-8 bytes; for valid UTF-8 that is the code-point order):    *)
@@ -91,6 +94,25 @@ RowOK ==
   /\ Same("get_hash=KeyHasher(Hash)", i, 1, R.ghk)
   /\ R.np >= 1
 
+(* Real-parallel race (harness mode `eqrace`): while one thread performed the FIRST get_hash() of fresh lazily hashed
+   keys of abstract shape i, other threads kept evaluating, against key j (an equal key from another construction
+   path with its hash cached, or an unequal control): i == j, j == i, i.cmp(j), j.cmp(i) and whether Hash::hash fed
+   the same bytes for both (-1: not evaluated in that round).  Every DISTINCT answer tuple is logged with its count.
+   ==, cmp and Hash must not depend on the state of the memo: each tuple must be the table's verdict. *)
+RaceOK ==
+  LET i == R.i
+      j == R.j
+  IN /\ i \in Idx /\ j \in Idx
+     /\ \A x \in DOMAIN R.tuples :
+          LET t == R.tuples[x] IN
+          /\ Same("race: i == j", j, B2I(ET[i][j]), t[1])
+          /\ Same("race: j == i", j, B2I(ET[j][i]), t[2])
+          /\ Same("race: i.cmp(j)", j, CT[i][j], t[3])
+          /\ Same("race: j.cmp(i)", j, CT[j][i], t[4])
+          /\ (t[5] # -1 => Same("race: hash-stream-equal", j, B2I(HT[i] = HT[j]), t[5]))
+          /\ t[6] > 0
+     /\ (HT[i] = HT[j]) => Same("race: get_hash differs from an equal key's", j, 0, R.gh_bad)
+
 (* the genuine defect seen on the real code: printed, not hidden (IF/THEN/ELSE: printed only then) *)
 KnownSeen ==
   LET i == R.i
@@ -103,6 +125,7 @@ TraceNext ==
   /\ l <= Len(Rec)
   /\ CASE R.ev = "reset" -> Reset /\ Step
        [] R.ev = "row"   -> RowOK /\ KnownSeen /\ cur' = R.i /\ Step /\ UNCHANGED <<ks, kd, ET, CT, HT, rk>>
+       [] R.ev = "race"  -> RaceOK /\ cur' = R.i /\ Step /\ UNCHANGED <<ks, kd, ET, CT, HT, rk, seen>>
        [] OTHER -> FALSE         \* panic in the code under test / unknown event
 
 TraceInit == l = 1 /\ ks = <<>> /\ kd = <<>> /\ ET = <<>> /\ CT = <<>> /\ HT = <<>> /\ rk = <<>> /\ cur = 0 /\ seen = FALSE
